@@ -10,6 +10,8 @@ Independently of the model, the clauses of the property are evaluated directly o
 for the selector families the property speaks about (property oracle below).
 """
 import itertools
+import struct
+from fractions import Fraction
 import vlib
 from vlib import coqlist
 
@@ -182,6 +184,72 @@ def draw_domain(rng, theme, size):
     return dom
 
 
+def f32(x):
+    """the float32 nearest to x, as a double (what np.float32(x) holds)"""
+    return struct.unpack("f", struct.pack("f", x))[0]
+
+
+TINY = [2.0 ** -27, 2.0 ** -30, 2.0 ** -40, 2.0 ** -53, 2.0 ** -60]
+NONDYADIC = {1: [[1.0]],
+             2: [[1 / 3, 2 / 3], [0.1, 0.9], [0.7, 0.3]],
+             3: [[0.7, 0.2, 0.1], [1 / 3, 1 / 3, 1 / 3], [1 / 7, 2 / 7, 4 / 7], [0.1, 0.1, 0.8]],
+             4: [[0.1, 0.2, 0.3, 0.4], [0.1, 0.1, 0.1, 0.7], [1 / 7, 1 / 7, 2 / 7, 3 / 7], [0.3, 0.3, 0.3, 0.1]]}
+
+
+def gen_row(rng, L, kind):
+    """one row of a probability table as doubles: tiny positive entries (below np.isclose's atol) next to exact zeros,
+    non-dyadic entries whose float sum is not exactly 1, one-hot rows, rows whose mass is off 1 by 1e-7 .. 1e-4"""
+    if L > 4:
+        return [1.0 / L] * L
+    if kind == "det" or L == 1:
+        row = [0.0] * L
+        row[rng.randrange(L)] = 1.0
+        return row
+    if kind == "tiny":
+        row = [0.0] * L
+        idx = rng.sample(range(L), L)
+        row[idx[0]] = 1.0 - rng.choice(TINY)
+        row[idx[1]] = rng.choice(TINY)
+        if L >= 3 and rng.random() < .5:
+            row[idx[2]] = rng.choice(TINY)
+        return row
+    row = list(rng.choice(NONDYADIC[L]))
+    rng.shuffle(row)
+    if kind == "off":
+        f = rng.choice([1 + 1e-6, 1 - 1e-7, 1 + 1e-4, 1 - 1e-9])
+        row = [x * f for x in row]
+    return row
+
+
+def gen_vals(rng, cls, doms, data, dtype):
+    """real numbers for the cells (vals[id] is the number of the cell whose id is `id`)"""
+    size = len(data)
+    L = len(doms[-1])
+    pos = []
+    if dtype == "probint":
+        kinds = ["det"]
+    elif cls in PROB_CLS:
+        kinds = [rng.choice(["tiny", "tiny", "nondyadic", "nondyadic", "off", "det"]) for _ in range(size // L)]
+    else:
+        kinds = None
+    if kinds is not None:
+        for r in range(size // L):
+            pos += gen_row(rng, L, kinds[r % len(kinds)])
+        if dtype == "probint":
+            pos = [int(x) for x in pos]
+    else:
+        # value tables: large magnitudes with relative gaps of 1e-6 between distinct cells, some tiny / zero / negative
+        base = rng.choice([1e3, 1e6, 1e9])
+        order = rng.sample(range(size), size)
+        pos = [base * (1 + k * 1e-6) * rng.choice([1, 1, -1]) for k in order]
+        for j in rng.sample(range(size), min(size, 2)):
+            pos[j] = rng.choice([0.0, 2.0 ** -60, 1e-300, 0.1, 1 / 3])
+    vals = [None] * size
+    for p_, k in enumerate(data):
+        vals[k] = pos[p_]
+    return [v.hex() if isinstance(v, float) else v for v in vals]
+
+
 def gen_table(rng, outer_size=None):
     cls = rng.choice(["Table", "Table", "ProbabilityTable", "ProbabilityTable", "StateTable", "StateActionTable",
                       "StateActionNextStateTable", "TabularPolicy", "TabularPolicy", "StateNextStateTable"])
@@ -215,6 +283,16 @@ def gen_table(rng, outer_size=None):
         c2 = tuple(rng.sample(doms[1], rng.randint(1, len(doms[1]))))
         if c2 not in doms[1] and len(doms[1]) < 4:
             doms[1].append(c2)
+    if outer_size is None:
+        r = rng.random()
+        if r < .08:                                     # one state, one action, one everything
+            doms = [d[:1] for d in doms]
+        elif r < .2 and n >= 2:                         # as many actions as states
+            m = max(2, min(len(doms[0]), len(doms[1])))
+            if len(doms[0]) >= m and len(doms[1]) >= m:
+                doms[0], doms[1] = doms[0][:m], doms[1][:m]
+        elif r < .28 and n >= 2 and cls in ("Table", "ProbabilityTable"):
+            doms[1] = list(doms[0])                     # the same sequence (and, in the runner, the same object) twice
     if cls == "StateActionNextStateTable":
         doms[2] = list(doms[0])
     if cls == "StateNextStateTable":
@@ -226,7 +304,7 @@ def gen_table(rng, outer_size=None):
     # representation of the same table on the way in: how the domains are passed, which constructor,
     # integer or float cells, and whether the objects were already used by another table (caches)
     rep = {"doms_as": rng.choice(["list", "tuple", "domaintuple"]), "dtype": rng.choice(["int", "int", "float"]),
-           "reuse": rng.random() < .3, "ctor": "default"}
+           "reuse": rng.random() < .3, "ctor": "default", "share_doms": True}
     r = rng.random()
     if cls in ("Table", "ProbabilityTable") and r < .3:
         rep["ctor"] = "fields"
@@ -244,6 +322,12 @@ def gen_table(rng, outer_size=None):
         rng.shuffle(data)                   # distinct cells that are NOT the row-major position
     case = {"cls": cls, "names": [enc(x) for x in names], "doms": [[enc(x) for x in d] for d in doms],
             "rep": rep, "data": data}
+    if rng.random() < (.65 if cls in PROB_CLS else .3):
+        # cells are real numbers (probability rows / large values), compared bit-exactly
+        rep["dtype"] = "prob64" if (rep["ctor"] == "from_dict" and n == 2) else rng.choice(["prob64", "prob64", "prob64", "prob32", "prob32", "probint"])
+        case["vals"] = gen_vals(rng, cls, doms, data, rep["dtype"])
+        if rep["dtype"] == "probint" and cls not in PROB_CLS:
+            case["vals"] = [int(float.fromhex(v)) if isinstance(v, str) else v for v in case["vals"]]
     if rep["ctor"] == "from_dict" and n == 2 and rng.random() < .5:
         # some (state, action) pairs absent from the dict (filled with default_value), every action present once
         pairs = [(i, j) for i in range(len(doms[0])) for j in range(len(doms[1]))]
@@ -575,6 +659,35 @@ def case_term(case, names):
     return "(run_case (data_table %s %s %s) %s, ctor_valid %s)" % (CLS2COQ[case["cls"]], fs, coqlist("%d" % x for x in case["data"]), chains, dup)
 
 
+def valmap(case):
+    """cell id -> exact rational [num, den] of the number msdm was given for that cell (None: cells are the ids)"""
+    if "vals" not in case:
+        return None
+    dt = case["rep"]["dtype"]
+
+    def vm(k):
+        if k >= len(case["vals"]):
+            x = 999.0                       # from_dict's default_value
+        else:
+            v = case["vals"][k]
+            x = float.fromhex(v) if isinstance(v, str) else v
+        if dt == "prob32":
+            x = f32(x)
+        fr = Fraction(x)
+        return [fr.numerator, fr.denominator]
+    return vm
+
+
+def mapobs(o, vm):
+    if vm is None or not o:
+        return o
+    if o[0] == "scalar":
+        return ["scalar", vm(o[1])]
+    if o[0] == "table":
+        return o[:4] + [[vm(k) for k in o[4]], [mapobs(p, vm) for p in o[5]]] + o[6:]
+    return o
+
+
 def effective(case, res):
     """the table msdm actually built, as the model must see it: for StateActionTable.from_dict the action order
     is msdm's (a set) and absent pairs hold default_value; everything else must be exactly what was passed in.
@@ -595,11 +708,52 @@ def effective(case, res):
         eff = case
         if res["doms"] != case["doms"]:
             return None, "constructed table's domains differ from the ones passed in"
-    if res["data"] != eff["data"]:      # not fatal: the property oracle then judges every cell against what was passed in
+    vm = valmap(eff)
+    eff = dict(eff, odata=[vm(k) for k in eff["data"]] if vm else eff["data"])
+    if res["data"] != eff["odata"]:      # not fatal: the property oracle then judges every cell against what was passed in
         return eff, "constructed table's data differ from the ones passed in"
     if res["shape"] != [len(d) for d in eff["doms"]] or res["ndim"] != len(eff["doms"]):
         return None, "shape/ndim of the table are not the domain sizes"
     return eff, None
+
+
+def feats(case, orig, res, F):
+    """measured input features (evidence: coverage.input_features)"""
+    def inc(k, n=1):
+        F[k] = F.get(k, 0) + n
+    sizes = [len(d) for d in case["doms"]]
+    rep = case.get("rep", {})
+    inc("tables")
+    if all(x == 1 for x in sizes): inc("all_domains_size_1")
+    if sizes[0] == 1: inc("one_outer_key(one_state)")
+    if len(sizes) >= 2 and sizes[1] == 1: inc("one_action")
+    if len(sizes) >= 2 and sizes[0] == sizes[1] and sizes[0] >= 2: inc("n_states_eq_n_actions>=2")
+    if len(sizes) >= 2 and sizes[0] != sizes[1]: inc("non_square")
+    if len(sizes) >= 2 and case["doms"][0] == case["doms"][1]: inc("same_domain_object_for_two_fields")
+    if rep.get("reuse"): inc("built_from_objects_of_a_used_twin_table")
+    if "rerun_of" in orig: inc("same_table_rebuilt_later_in_same_process")
+    inc("caller_objects_snapshotted(domains,data,selectors)")
+    inc("first_results_requeried_after_other_table", sum(1 for c in res["chains"] if "stale_ok" in c))
+    inc("dtype=" + rep.get("dtype", "int"))
+    if "vals" in case:
+        vs = [Fraction(*x) for x in case["data"]]
+        isprob = case["cls"] in PROB_CLS
+        L = sizes[-1]
+        if isprob:
+            tiny = sum(1 for v in vs if 0 < v < Fraction(1, 10 ** 8))
+            inc("prob_entries_tiny_positive(<1e-8)", tiny)
+            inc("prob_entries_exact_zero", sum(1 for v in vs if v == 0))
+            rows = [vs[i:i + L] for i in range(0, len(vs), L)]
+            inc("prob_rows", len(rows))
+            inc("prob_rows_with_tiny_entry", sum(1 for r in rows if any(0 < v < Fraction(1, 10 ** 8) for v in r)))
+            inc("prob_rows_float_sum_not_exactly_1", sum(1 for r in rows if sum(float(v) for v in r) != 1.0))
+            inc("prob_rows_nondyadic", sum(1 for r in rows if any(v.denominator & (v.denominator - 1) == 0 and v.denominator > 2 ** 40 and v > Fraction(1, 100) for v in r)))
+            inc("prob_rows_mass_off_1_by>1e-8", sum(1 for r in rows if abs(sum(r) - 1) > Fraction(1, 10 ** 8)))
+            if rep.get("dtype") == "probint": inc("prob_tables_int_typed")
+        else:
+            inc("value_tables_large_near_ties(rel_gap_1e-6)")
+            inc("value_entries_abs>=1e6", sum(1 for v in vs if abs(v) >= 10 ** 6))
+        if rep.get("dtype") == "prob32": inc("float32_tables")
 
 
 def strip(o):
@@ -623,7 +777,16 @@ def run(ctx):
         cases = [gen_case(ctx.rng, tier) for _ in range(ncases)]
         nperm = (5, 2) if tier == "quick" else (30, 10)      # tables with 4 / 5 outer keys and all ordered key lists
         cases += [gen_perm_case(ctx.rng, 4) for _ in range(nperm[0])] + [gen_perm_case(ctx.rng, 5) for _ in range(nperm[1])]
-    impl = ctx.impl("c12_impl.py", {"cases": cases}, shards=8 if tier == "quick" else 16)["results"]
+    nshards = 8 if tier == "quick" else 16
+    if not ctx.replay_case:
+        # the same table constructed a second time later in the SAME process (class/module-level caches), with a
+        # varying number of unrelated constructions in between: copies land in the shard of their original
+        base = len(cases)
+        for _ in range(12 if tier == "quick" else 60):
+            j = len(cases)
+            src = (j % nshards) + nshards * ctx.rng.randrange(max(1, base // nshards - 1))
+            cases.append(dict(cases[src], rerun_of=src))
+    impl = ctx.impl("c12_impl.py", {"cases": cases}, shards=nshards)["results"]
     terms, idx, effs = [], [], {}
     for i, (case, res) in enumerate(zip(cases, impl)):
         if "error" in res:
@@ -641,12 +804,15 @@ def run(ctx):
     stats = {"chains": 0, "mirror_equal": 0, "by_family": {}, "by_kind": {}, "by_error": {}, "by_class": {},
              "by_rep": {}, "oracle_checked": 0, "outer_element_wins_collisions": 0, "incoherent_subtables_outside_quantifier": 0}
     distinct = set()
+    F = {}
 
     def one_chain(case):
         return lambda j: dict(case, chains=[case["chains"][j]], fams=[case["fams"][j]])
 
     for i, v in zip(idx, vals):
-        orig, case, res = cases[i], effs[i], impl[i]
+        orig, res = cases[i], impl[i]
+        case = dict(effs[i], data=effs[i]["odata"])       # what the oracle sees: the numbers the table was given
+        vm = valmap(effs[i])
         names = res["names"]
         sns = case["cls"] == "StateNextStateTable"
         for k_, v_ in case.get("rep", {}).items():
@@ -658,11 +824,14 @@ def run(ctx):
         try:
             mkeys, mlen, mitems, mchains, mvalid = v
             mkeys = [pv_of(k) for k in mkeys]
-            mitems = [obs_of(o, sns) for o in mitems]
-            mchains = [([obs_of(o, sns) for o in st], obs_of(g, sns)) for st, g in mchains]
+            mitems = [mapobs(obs_of(o, sns), vm) for o in mitems]
+            mchains = [([mapobs(obs_of(o, sns), vm) for o in st], mapobs(obs_of(g, sns), vm)) for st, g in mchains]
         except Exception as e:   # parse problem = broken correspondence
             ctx_violation("C12:coq-output-unparsed", {"case": orig, "error": repr(e)[:400]}, found=False)
             continue
+        if res.get("mutated"):
+            ctx_violation("C12:caller-object-mutated:" + "+".join(res["mutated"]), {"case": dict(orig, chains=orig["chains"][:3], fams=orig["fams"][:3])}, found=False)
+        feats(case, orig, res, F)
         # -- construction-time validation and fixed error paths
         if (res.get("ctor_dup") == "ValueError") != (mvalid is False) or res.get("ctor_shape") != "ValueError":
             ctx_violation("C12:mirror-differs:constructor-validation", {"case": dict(orig, chains=[], fams=[]),
@@ -702,6 +871,7 @@ def run(ctx):
             same = (isteps == msteps and iget == mget and
                     ("action_dist" not in out or strip(out["action_dist"]) == msteps[0]) and
                     strip(out["repeat"]) == msteps[0] and                           # second call on the same object
+                    out.get("stale_ok", True) and           # first results re-queried after a different table was used
                     out["get_none"] == ("err" if mget[0] == "err" else mget == ["default"]))   # get(key) without a default
             if why:
                 ctx_violation("C12:" + why, {"case": sub(j), "family": fam, "impl": out, "model": [msteps, mget]}, found=True)
@@ -739,5 +909,5 @@ def run(ctx):
                 "(class, domains, chain); every chain is non-trivial (a table with >= 1 cell and a selector)",
         "samples": [{"case": dict(cases[0], chains=cases[0]["chains"][:3], fams=cases[0]["fams"][:3]),
                      "impl": {"chains": impl[0].get("chains", [])[:3]}}] if cases else [],
-        "tables": len(cases), **stats,
+        "tables": len(cases), "input_features": F, **stats,
     })
